@@ -279,11 +279,12 @@ type Style struct {
 	WordAlt     bool    // "notin", "startswith", "endswith", "has( k )", "all( )"
 	ManyNots    bool    // "!!!" instead of "!"
 	SetNoise    bool    // shuffle / duplicate set members, trailing comma
+	SetRevDup   bool    // deterministic: members in reverse order, each one twice ({"b","b","a","a"})
 }
 
 func PlainStyle() *Style { return &Style{} }
 func DenseStyle() *Style {
-	return &Style{SingleQuote: true, Dense: true, WordAlt: true, ManyNots: true, Flatten: true}
+	return &Style{SingleQuote: true, Dense: true, WordAlt: true, ManyNots: true, Flatten: true, SetRevDup: true}
 }
 func RandomStyle(rnd *rand.Rand) *Style {
 	return &Style{Rnd: rnd, SingleQuote: rnd.Intn(2) == 0, Dense: rnd.Intn(3) == 0, ExtraParens: []float64{0, 0.15, 0.4}[rnd.Intn(3)],
@@ -376,6 +377,13 @@ func (st *Style) tokensX(n *N, ctx int, noExtra bool) []string {
 		}
 		out = []string{n.K, op, "{"}
 		vs := append([]string{}, n.Vs...)
+		if st.SetRevDup {
+			rev := []string{}
+			for i := len(vs) - 1; i >= 0; i-- {
+				rev = append(rev, vs[i], vs[i])
+			}
+			vs = rev
+		}
 		if st.SetNoise && st.Rnd != nil && len(vs) > 0 {
 			st.Rnd.Shuffle(len(vs), func(i, j int) { vs[i], vs[j] = vs[j], vs[i] })
 			if st.Rnd.Intn(3) == 0 {
@@ -477,15 +485,20 @@ func Text(n *N) string {
 var junk = []string{"(", ")", "{", "}", ",", "!", "&&", "||", "&", "|", "=", "==", "!=", `"`, `'`, `"x"`, `'y'`, "in", "not in", "not",
 	"contains", "starts with", "ends with", "starts", "with", "has(a)", "has(", "all()", "all(", "global()", "a", "b", "\n", "has", "all", ""}
 
+// Trailers: tokens appended after a complete expression (every one tokenises).
+var Trailers = []string{")", "}", ",", `"c"`, "'c'", "has(b)", "all()", "global()", "a", "!", "(", "{", "&&", "||", `b == "x"`, "in", "=="}
+
 // Mutate applies one token-level mutation (drop / duplicate / transpose / insert / replace / truncate /
-// break a string literal).
+// break a string literal / append a trailing token).
 func Mutate(rnd *rand.Rand, toks []string) []string {
 	out := append([]string{}, toks...)
 	if len(out) == 0 {
 		return []string{junk[rnd.Intn(len(junk))]}
 	}
 	i := rnd.Intn(len(out))
-	switch rnd.Intn(8) {
+	switch rnd.Intn(10) {
+	case 8, 9: // trailing junk after a complete expression
+		return append(out, Trailers[rnd.Intn(len(Trailers))])
 	case 0: // drop
 		out = append(out[:i], out[i+1:]...)
 	case 1: // duplicate
